@@ -551,6 +551,13 @@ def main(tier, seed):
             kind, data = "flagged", asm.fam_flagged(rng)[0]
         cases.append({"kind": kind, "hex": data.hex(), "seed": rng.randrange(1 << 60),
                       "length": rng.randrange(1, 13), "observe_all": rng.random() < 0.5})
+    # long opcode lists (more than 1024 and more than 2048 opcodes): serialisation in batches / by slices
+    import pickle as _pickle
+    for n_items, proto in ((1100, 2), (2300, 1), (1030, 4)):
+        data = _pickle.dumps(list(range(n_items)), protocol=proto)
+        for j in range(2):
+            cases.append({"kind": "long", "hex": data.hex(), "seed": rng.randrange(1 << 60),
+                          "length": 4 + 3 * j, "observe_all": False})
     import time
     t1 = time.time()
     results = run_real(cases)
